@@ -1590,6 +1590,13 @@ class Sym:
                 out.append((s, args[0]))
                 continue
             if callee.get('repo') is False:
+                if cls.replace('const ', '').startswith('std::basic_string_view<') and len(args) == 2 \
+                        and all(isinstance(a, tuple) and len(a) >= 4 and a[0] == 'call' and not a[3] and a[2] is not None for a in args) \
+                        and args[0][2] == args[1][2] and fn_simple(args[0][1]) in ('data', 'begin') and fn_simple(args[1][1]) in ('size', 'length') \
+                        and 'basic_string_view<' in args[0][1]:
+                    # a view rebuilt from data() and size() of one and the same view is that view
+                    out.append((s, args[0][2]))
+                    continue
                 out.append((s, ('call', callee['id'], None, tuple(args))))
                 continue
             o = s.new_obj(cls, origin=('ctor', callee['id']))
